@@ -61,7 +61,13 @@ func zzC16_limits() {
 		mu.Unlock()
 		return nil, nil
 	}
-	l := New(total, perEP, do, nil)
+	// the observe-registration entry point takes the same two gates
+	doObs := func(req *pool.Message, observeFunc func(req *pool.Message)) (Observation, error) {
+		_, err := do(req)
+		return nil, err
+	}
+	viaObserve := symParam("api", 0) == 1
+	l := New(total, perEP, do, doObs)
 	keys := make([]uint64, R)
 	var wg sync.WaitGroup
 	arrived := 0
@@ -81,7 +87,11 @@ func zzC16_limits() {
 		before := zzQueued(l, keys[i])
 		wg.Add(1)
 		go func() {
-			_, r.err = l.Do(m)
+			if viaObserve {
+				_, r.err = l.DoObserve(m, func(*pool.Message) {})
+			} else {
+				_, r.err = l.Do(m)
+			}
 			mu.Lock()
 			r.done = true
 			mu.Unlock()
@@ -192,6 +202,9 @@ func zzC16_limits() {
 	_, err := l.Do(m)
 	symAssert(err == nil && fresh.admitted > 0, "after all calls returned a new request is admitted immediately")
 }
+
+// the same through DoObserve
+func zzC16_observe() { zzC16_limits() }
 
 // arrival order with a longer queue (one holder, three waiters on one path), no cancellations
 func zzC16_fifo() { zzC16_limits() }
